@@ -469,6 +469,15 @@ def probe_signature(db, f):
     for w, tgt, num, m, r in adv:
         if m != "tsize":
             probs.append("probe advance at line %s is reduced modulo something other than the table size" % w.get("l"))
+        # every product in the advance is computed at the width of the modulus (i * step must not wrap at 32 bits while the
+        # insert that placed the string computed it in size_t)
+        mt = f.type(r["rhs"])
+        for x in walk(r["lhs"]):
+            if x["k"] == "BinaryOperator" and x["op"] == "*":
+                xt = f.type(x)
+                if mt and xt and (xt.get("bits") or 0) < (mt.get("bits") or 0):
+                    probs.append("the product at line %s is computed in %d bits although the table size is a %d-bit quantity: it wraps for large "
+                                 "tables and the lookup leaves the probe sequence the insert followed" % (x.get("l"), xt.get("bits") or 0, mt.get("bits") or 0))
         hs, ss = "L%d" % start[0], "L%d" % step[0]
         keys = {k_: v for k_, v in num.items()}
         if keys == {(hs,): 1, (ss,): 1} and tgt == ("local", start[0]):
